@@ -13,6 +13,7 @@ mod c08;
 mod c14;
 mod c15;
 mod c16;
+mod c17;
 mod c18;
 
 fn main() {
@@ -31,6 +32,7 @@ fn main() {
         "c03-tok" => c03::tok(rest),
         "c03-gen" => c03::corpus(rest),
         "c03-prod" => c03::prod(rest),
+        "c17-pty" => c17::pty(),
         "c18-replay" => c18::replay(rest),
         "c18-parse" => c18::parse(rest),
         "c16-queue" => c16::queue(rest),
